@@ -53,6 +53,11 @@ def setup_env():
     e['LC_ALL'] = 'C.UTF-8'
     e['PYTHONIOENCODING'] = 'utf-8'
     e.setdefault('VERIF_ORIG_PATH', e.get('PATH', ''))
+    import logging
+    lg = logging.getLogger('nbdime')
+    if not getattr(lg, '_verif_quiet', False):
+        lg.addFilter(lambda record: False)   # harness output only; nbdime's log text is never an observation
+        lg._verif_quiet = True
     _build_toolsets(root)
     return root
 
